@@ -3,6 +3,7 @@
 -/
 import FqeVerif.Driver.Parse
 import FqeVerif.Model.Maps
+import FqeVerif.Model.Cirq
 namespace Driver
 open Fock Model
 
@@ -81,6 +82,15 @@ def cmd (name : String) : P String := do
       let norb ← nat; let nele ← nat; let dn ← nat
       let l := makeMappingEachSet norb dn (stringTable norb nele)
       return " ".intercalate (l.map fun (mask, es) => s!"{mask} " ++ showTriples es)
+  -- Model: qubit export.  `<norb> vec` -> `<n> {index re im}` sorted by index
+  | "tocirq" => do
+      let norb ← nat; let v ← vec
+      let l := v.toList.map (fun ((a, b), c) => (cirqIndex norb a b, GQ.signed (cirqSign norb a b) c))
+      let l := (l.toArray.qsort (fun x y => x.1 < y.1)).toList
+      return " ".intercalate (toString l.length :: l.map (fun (i, c) => s!"{i} {c.toStr}"))
+  | "cirqindex" => do
+      let norb ← nat; let a ← nat; let b ← nat
+      return s!"{cirqIndex norb a b} {b2n (cirqSign norb a b)} {b2n (embedSign norb a b)}"
   | _ => throw s!"unknown command {name}"
 
 def handle (line : String) : String :=
